@@ -200,6 +200,10 @@ func genC02(t *rapid.T) *Case {
 			Kind:   rapid.SampledFrom([]string{"gosched", "sleep"}).Draw(t, "yield.kind"),
 		})
 	}
+	if rapid.IntRange(0, 3).Draw(t, "park") == 0 {
+		// hold an Invoke between sending its request and half-closing, while the tape delivers frames
+		c.Yields = append(c.Yields, Yield{Point: "client.invoke.afterSend", Nth: rapid.IntRange(0, 2).Draw(t, "park.nth"), Kind: "park"})
+	}
 	c.Tape = genTape(t, 0, 120)
 	return c
 }
